@@ -60,6 +60,24 @@ def subWordsOkList : List SV → Bool
   | k :: ks => subWordsOk k && subWordsOkList ks
 end
 
+mutual
+/-- finding D20: a sub-word cut out of a narrower sub-word keeps its own width -/
+def nestedWider : SV → Bool
+  | .node k attrs ks _ =>
+    (match k, attrs, ks with
+     | .subWord, [o, s], [.node .subWord [_, s'] _ _] => o + s > s'
+     | _, _, _ => false) || nestedWiderList ks
+def nestedWiderList : List SV → Bool
+  | [] => false
+  | k :: ks => nestedWider k || nestedWiderList ks
+end
+
+/-- does the sub-word pass produce such a nesting on this raw tree? -/
+def liftsToNestedWider (t : SV) : Bool :=
+  match insertSubWords (nodeCount t + 1) t with
+  | .ok v => nestedWider v
+  | .error _ => false
+
 def handleLift (tbl : Array (Nat × Nat)) (payload impl : String) : String × String :=
   match parseSV payload with
   | none => ("bad-request", "ok")
